@@ -6,6 +6,7 @@ import (
 
 	"github.com/jsightapi/jsight-schema-go-library/bytes"
 	"github.com/jsightapi/jsight-schema-go-library/errors"
+	"github.com/jsightapi/jsight-schema-go-library/internal/lexeme"
 	"github.com/jsightapi/jsight-schema-go-library/internal/sync"
 	internalSchema "github.com/jsightapi/jsight-schema-go-library/notations/jschema/internal/schema"
 	"github.com/jsightapi/jsight-schema-go-library/notations/jschema/internal/schema/constraint"
@@ -158,8 +159,9 @@ func (b *exampleBuilder) buildExampleForArrayNode(node *internalSchema.ArrayNode
 func (b *exampleBuilder) buildExampleForMixedValueNode(node *internalSchema.MixedValueNode) ([]byte, error) {
 	tt := node.GetTypes()
 	if len(tt) == 0 {
-		// Normally this shouldn't happen, but we still have to handle this case.
-		return nil, errors.ErrLoader
+		// Normally this shouldn't happen, but we still have to handle this case
+		// (a type shortcut with an "or" rule made of built-in types only).
+		return nil, lexeme.NewLexEventError(node.BasisLexEventOfSchemaForNode(), errors.ErrLoader)
 	}
 
 	// The first alternative which has an example is used: an alternative that
